@@ -8,6 +8,7 @@ test-suite and (B) the property checks of /verif.
   tools/mutation_run.py stageB [-j 3] [--limit N] [--deadline EPOCH] [--follow]
                                              repo-suite survivors, in the stratified order: the relevant checks (quick)
   tools/mutation_run.py summary              write mutation/SUMMARY.md (results.jsonl + triage.jsonl) and survivors/*.diff
+  tools/mutation_run.py recheck --check C19 --sig <text> --base <commit>   re-run false catches on another base (see recheck())
   tools/mutation_run.py demo <id> <x_test.go> run a demonstration test on the clean and on the mutated tree
   tools/mutation_run.py clean                remove the scratch worktrees and /tmp/mut
 
@@ -309,14 +310,18 @@ def run_check(wt, cid):
     return {"check": cid, "exit": rc, "secs": secs, "violations": nviol, "sig": sig}
 
 
-def stage_b_one(wt, m):
+def stage_b_one(wt, m, keep=None, start_at=None):
+    """keep/start_at: re-run from check start_at on, keeping the records `keep` of the checks before it"""
     ok, err = apply(wt, m)
-    r = {"stage": "B", "id": m["id"], "op": m["op"], "file": m["file"], "line": m["line"], "checks": []}
+    r = {"stage": "B", "id": m["id"], "op": m["op"], "file": m["file"], "line": m["line"], "checks": list(keep or [])}
     if not ok:
         r.update(status="patch-failed", detail=err[:200])
         return r
-    trouble = []
-    for cid in relevant(m["file"]):
+    trouble = [c["check"] for c in r["checks"] if c["exit"] not in (0, 1)]
+    todo = relevant(m["file"])
+    if start_at:
+        todo = todo[todo.index(start_at):]
+    for cid in todo:
         wait_for_load()
         c = run_check(wt, cid)
         if c["exit"] not in (0, 1):  # tool trouble: once more
@@ -394,6 +399,49 @@ def stage_b(args):
     print("stage B done:", dict(counts), flush=True)
 
 
+def recheck(args):
+    """Re-run, on worktrees at another commit of REPO (--base), the mutants that a check 'caught' with a
+    signature the unmodified tree shows as well (--check, --sig): the catch says nothing about the mutant.
+    Happens when a checker is strengthened while a run is in progress and the defect it then finds is fixed in
+    REPO after the run's base commit. The checks before --check keep their records; --check and the following
+    ones run again; the new stage-B line replaces the old one (the last line of an id wins)."""
+    index = {m["id"]: m for m in load_index()}
+    _, b = load_results()
+    todo = [r for r in b.values() if r.get("caught_by") == args.check and args.sig in r.get("sig", "") and not r.get("rebased_on")]
+    print("recheck: %d mutants" % len(todo), flush=True)
+    it = iter(todo)
+    lock = threading.Lock()
+
+    def worker(k):
+        wt = os.path.join(SCRATCH, "wC%d" % k)
+        if not os.path.isdir(wt):
+            subprocess.run(["git", "-C", REPO, "worktree", "add", "-q", "--detach", wt, args.base], check=True)
+        while True:
+            with lock:
+                old = next(it, None)
+            if old is None:
+                break
+            m = index[old["id"]]
+            keep = []
+            for c in old["checks"]:
+                if c["check"] == args.check:
+                    break
+                keep.append(c)
+            r = stage_b_one(wt, m, keep=keep, start_at=args.check)
+            r["rebased_on"] = args.base
+            r["replaces"] = {"caught_by": args.check, "sig": old.get("sig", "")[:120]}
+            record(r)
+            print("  R %-45s %-12s %s" % (m["id"], r["status"], r.get("caught_by", "")), flush=True)
+        subprocess.run(["git", "-C", wt, "checkout", "-q", "--", "."])
+
+    ts = [threading.Thread(target=worker, args=(k,)) for k in range(args.j)]
+    for t in ts:
+        t.start()
+        time.sleep(5)
+    for t in ts:
+        t.join()
+
+
 # ---------------------------------------------------------------------------
 
 def gen(args):
@@ -458,6 +506,11 @@ def main():
     b.add_argument("--limit", type=int, default=0, help="stop when this many mutants have a stage-B record")
     b.add_argument("--deadline", type=float, default=0, help="epoch seconds after which no new mutant is started")
     b.add_argument("--follow", action="store_true", help="keep waiting for stage A to produce survivors")
+    rc = sub.add_parser("recheck")
+    rc.add_argument("--check", required=True)
+    rc.add_argument("--sig", required=True)
+    rc.add_argument("--base", required=True)
+    rc.add_argument("-j", type=int, default=3)
     sub.add_parser("summary")
     d = sub.add_parser("demo")
     d.add_argument("id")
@@ -479,6 +532,8 @@ def main():
     elif args.cmd == "summary":
         import mutation_summary
         mutation_summary.main()
+    elif args.cmd == "recheck":
+        recheck(args)
     elif args.cmd == "demo":
         demo(args)
     elif args.cmd == "clean":
